@@ -1,6 +1,6 @@
 #!/bin/sh
 # Stand-alone test of the Rust-table tie of C01: regenerate coq/gen/RustTables.v from $VERIF_REPO (default /repo),
-# build gen/RustTables.vo, model/Validity.vo (if stale) and proofs/RustTablesP.vo, and print the assumptions of the
+# build gen/RustTables.vo, model/Validity.vo (if stale), proofs/RustTablesP.vo and proofs/RustSigP.vo, and print the assumptions of the
 # theorems.  Exit 0 iff the scanner accepted the sources, both files compiled and every theorem is closed.
 #   usage: VERIF_REPO=/work/r-V01 harness/translators/test_rust_tables.sh
 set -u
@@ -20,9 +20,10 @@ for f in lib/Harness model/Validity; do
 done
 timeout 600 coqc -Q . HV $W gen/RustTables.v || { echo "FAIL: gen/RustTables.v"; exit 1; }
 timeout 900 coqc -Q . HV $W proofs/RustTablesP.v || { echo "FAIL: proofs/RustTablesP.v does not hold of the regenerated tables"; exit 1; }
+timeout 900 coqc -Q . HV $W proofs/RustSigP.v || { echo "FAIL: proofs/RustSigP.v does not hold of the regenerated tables"; exit 1; }
 TMP=$(mktemp -d)
 cat > "$TMP/RustTablesCheck.v" <<'EOF'
-From HV Require Import proofs.RustTablesP.
+From HV Require Import proofs.RustTablesP proofs.RustSigP.
 Print Assumptions is_superset_spec.
 Print Assumptions is_superset_fuel_enough.
 Print Assumptions is_superset_antisym.
@@ -45,6 +46,12 @@ Print Assumptions port_layout_matches.
 Print Assumptions tag_tests_match.
 Print Assumptions edge_kinds_match.
 Print Assumptions inputs_must_connect_matches.
+Print Assumptions fields_modelled.
+Print Assumptions df_sig_matches.
+Print Assumptions inner_sig_matches.
+Print Assumptions case_rows_match.
+Print Assumptions successor_rows_match.
+Print Assumptions block_input_rows_match.
 EOF
 OUT=$(cd "$TMP" && timeout 300 coqc -Q "$COQ" HV $W RustTablesCheck.v 2>&1)
 rc=$?
@@ -52,5 +59,5 @@ rm -rf "$TMP"
 echo "$OUT"
 [ $rc -eq 0 ] || { echo "FAIL: Print Assumptions"; exit 1; }
 n=$(echo "$OUT" | grep -c "Closed under the global context")
-if [ "$n" -ne 22 ]; then echo "FAIL: $n of 22 theorems closed"; exit 1; fi
-echo "OK rust-tables: scanner accepted $REPO, 22 theorems closed under the global context"
+if [ "$n" -ne 28 ]; then echo "FAIL: $n of 28 theorems closed"; exit 1; fi
+echo "OK rust-tables: scanner accepted $REPO, 28 theorems closed under the global context"
